@@ -15,6 +15,12 @@ func VerifC04DeleteStep() {
 	idx := verifIndex(n)
 	db, vf := verifDB(idx)
 	before := verifSnapshot(idx)
+	// representation invariant: no stored domain is empty (a commit of zero bytes inserts nothing, and a delete
+	// only keeps the non-empty head/tail of a domain). Without it, a zero-size domain inside the range makes
+	// "nothing to remove" ambiguous: found by the thorough tier at n=3 and traced to this unreachable pre-state.
+	for i := range before {
+		verifAssume(before[i].size > 0)
+	}
 	totalBefore := idx.totalSize.Load()
 	tr := telem.TimeRange{Start: telem.TimeStamp(verifInt64("tr.start")), End: telem.TimeStamp(verifInt64("tr.end"))}
 	verifAssume(tr.Start >= 0 && tr.Start <= tr.End)
@@ -130,6 +136,20 @@ func VerifC04DeleteStep() {
 	verifObserveBool("err", err != nil)
 	verifObserve("len-after", int64(len(after)))
 	verifAssert("delete-no-error", err == nil)
+	if verifParam("debug", 0) == 1 {
+		for _, p := range after {
+			verifObserve("after.start", int64(p.Start))
+			verifObserve("after.end", int64(p.End))
+			verifObserve("after.offset", int64(p.offset))
+			verifObserve("after.size", int64(p.size))
+		}
+		for _, p := range want {
+			verifObserve("want.start", int64(p.Start))
+			verifObserve("want.end", int64(p.End))
+			verifObserve("want.offset", int64(p.offset))
+			verifObserve("want.size", int64(p.size))
+		}
+	}
 	verifAssert("delete-exact-pointers", verifHSameSlice(after, want))
 	verifAssert("delete-inv", verifHInvIndex(after))
 	verifAssert("delete-total-size", idx.totalSize.Load() == totalBefore-verifSum(before)+verifSum(after))
